@@ -929,3 +929,41 @@ def strip_floor_clamps(v):
         return alg.map_atoms(v, f)
     except RecursionError:
         return v
+
+
+def _whole_turns(d, turn):
+    if not d.is_const():
+        return False
+    cv = d.const_value()
+    if cv is None or cv.im:
+        return False
+    return (cv.re / turn).denominator == 1
+
+
+def strip_turn_folds(v, turn=360):
+    """ite(c, X + k*turn, X) -> X at any depth (k an integer): a fold of an angle into its principal range chooses between representatives
+    of the same angle.  What is compared afterwards is the angle modulo a full turn; WHICH representative is returned is a range obligation
+    decided separately (common.longitude_range_rule)."""
+    from fractions import Fraction
+    if isinstance(v, Tup):
+        return Tup([strip_turn_folds(x, turn) for x in v.items], v.is_list)
+    if isinstance(v, IteV):
+        a, b = strip_turn_folds(v.a, turn), strip_turn_folds(v.b, turn)
+        if isinstance(a, Rat) and isinstance(b, Rat):
+            d = a - b
+            if _whole_turns(d, turn):
+                return b
+        return IteV(v.cond, a, b)
+    if not isinstance(v, Rat):
+        return v
+
+    def f(at):
+        if at.kind == 'fn' and at.name == 'ite' and len(at.args) == 3 and isinstance(at.args[1], Rat) and isinstance(at.args[2], Rat):
+            a, b = strip_turn_folds(at.args[1], turn), strip_turn_folds(at.args[2], turn)
+            if _whole_turns(a - b, turn):
+                return b
+        return None
+    try:
+        return alg.map_atoms(v, f)
+    except RecursionError:
+        return v
